@@ -49,7 +49,14 @@ def run(P, R, tier):
         cv = cone(du, v, r, interproc=False)
         R.check(cw.calls_any("bincount") and any(x.endswith("sum") for x in cw.calls), "DEP.weights", f.key, f"weights = {src(w)}", "assigned fraction: count / total", "cluster weights are not the fraction of samples assigned to each cluster", r.lineno)
         R.check(cv.calls_any("bincount"), "DEP.variances", f.key, f"variances = {src(v)}", "normalised by the cluster count", "cluster variances are not normalised by the cluster count", r.lineno)
-    # all blocks are folded
+    check_reduce_cover(P, R)
+    # GMM initialisation from the k-means result
+    _rest(P, R)
+
+
+def check_reduce_cover(P, R):
+    """reduce_indices_means_vars collects component i of every block's statistics."""
+    f = P.func("kmeans:reduce_indices_means_vars")
     for nm, idx in (("means_sum", 1), ("variances_sum", 2), ("closest_centroid_indices", 0)):
         ok = False
         for st, t, v, k in stores(f):
@@ -57,7 +64,9 @@ def run(P, R, tier):
                 g = v.generators[0]
                 ok = isinstance(g.iter, ast.Name) and g.iter.id == f.value_params[0] and not g.ifs and isinstance(v.elt, ast.Subscript) and const_value(v.elt.slice) == idx
         R.check(ok, "COVER.blocks", f.key, f"{nm} collected from every block (component {idx})", "", f"{nm} is not collected from component {idx} of every block's statistics")
-    # GMM initialisation from the k-means result
+
+
+def _rest(P, R):
     g = P.func("gmm:GMMMachine.initialize_gaussians")
     R.analysed(g)
     gdu = get_defuse(g, P)
